@@ -96,6 +96,34 @@ def handleProc (args : List String) (impl : List String) : String :=
 def splitOracle (args : List String) : List String × List OracleEntry :=
   (args.filter (!isOracleWord ·), (args.filter isOracleWord).filterMap parseOracle)
 
+/-- C13 verdict for a single byte step on valid UTF-8: the character-level specification
+    (`decode_strip_chars`, `decode_extend_chars`, `decode_collapse_chars`, `decode_replace_literal`). -/
+def decStepSpec (d : Decoding) (t : Bytes) : Option Bytes :=
+  let cs := Utf8.chars t
+  match d with
+  | .extend c l r pad => some (Utf8.encodeChars (Spec.extendSpec c l r pad cs))
+  | .strip c l r => some (Utf8.encodeChars (Spec.stripSpec c l r cs))
+  | .collapse c => some (Utf8.encodeChars (collapseChars c false cs))
+  | .replace (.char c) rep => some (replaceAll (Utf8.encodeChar c) rep t)
+  | .replace (.string s) rep => some (replaceAll s rep t)
+  | .replace (.regex _) _ => none
+
+def decVerdict (steps : List Decoding) (t : Bytes) (impl : Res Bytes) : String :=
+  match impl with
+  | .ok out =>
+    -- `Decoding::decode` on an empty text is the identity (the steps are not run)
+    if t.isEmpty then (if out.isEmpty then "HOLDS" else "FAILS empty-text-changed")
+    else match steps with
+    | [] => if out == t then "HOLDS" else "FAILS no-steps-changed"
+    | [d] =>
+      if validUtf8 t then
+        (match decStepSpec d t with
+          | some e => if e == out then "HOLDS" else "FAILS step-effect"
+          | none => "HOLDS-NA")
+      else "HOLDS-NA"
+    | _ => "HOLDS-NA"
+  | _ => "FAILS not-total"
+
 def handleDecStep (args : List String) (impl : List String) : String :=
   let (args, tab) := splitOracle args
   match args with
@@ -105,8 +133,7 @@ def handleDecStep (args : List String) (impl : List String) : String :=
       let model := match configDecode (mkExt tab).dec steps t with
         | none => "MISS decode replace"
         | some r => showResBytes r
-      let verdict := match impl with | .ok _ => "HOLDS-NA" | _ => "FAILS not-total"
-      s!"{model} || {verdict}"
+      s!"{model} || {decVerdict steps t impl}"
     | _, _, _ => "BAD-OP"
   | _ => "BAD-OP"
 
@@ -464,6 +491,57 @@ def pieceSpecOf (tk : Tokenizer Float) (text : Bytes) : Res (List Id) :=
       | .ok (_, ids) => .ok ids | .err e => .err e | .panic p => .panic p)
   | .wordpiece c => WordPiece.encodeWord c text
 
+/-- C02 with unknown ids in the output: one ordinary part. Every vocabulary id must spell the next
+    bytes; the unknown id stands for exactly one unit (character, or byte in byte mode), and that unit
+    must not be a vocabulary entry by itself ("an encodable stretch is never replaced"). -/
+def alignPart (tokOf : Id → Option Bytes) (inVocab : Bytes → Bool) (unitLen : Bytes → Nat) (unk : Id) :
+    Bytes → List Id → Except String (List Id)
+  | rest, [] => if rest.isEmpty then .ok [] else .error "spelling-short"
+  | rest, i :: ids =>
+    if rest.isEmpty then .ok (i :: ids)
+    else if i == unk then
+      let n := max 1 (unitLen rest)
+      if inVocab (rest.take n) then .error "encodable-unit-replaced-by-unknown"
+      else alignPart tokOf inVocab unitLen unk (rest.drop n) ids
+    else match tokOf i with
+      | none => .error "unknown-id-in-output"
+      | some b =>
+        if startsWith rest b then alignPart tokOf inVocab unitLen unk (rest.drop b.length) ids
+        else .error "spelling"
+
+def alignParts (tk : Tokenizer Float) (inVocab : Bytes → Bool) (unitLen : Bytes → Nat) (unk : Id) :
+    List TextPart → List Id → Except String Unit
+  | [], ids => if ids.isEmpty then .ok () else .error "spelling-extra-ids"
+  | p :: ps, ids =>
+    if p.special != INVALID then
+      match ids with
+      | i :: ids => if i == p.special then alignParts tk inVocab unitLen unk ps ids else .error "special-part-id"
+      | [] => .error "spelling-short"
+    else
+      match alignPart tk.dec.vocab inVocab unitLen unk p.text ids with
+      | .ok ids => alignParts tk inVocab unitLen unk ps ids
+      | .error e => .error e
+
+/-- The alignment applies when the unknown id is unambiguous and stands for one unit: Unigram, or BPE
+    without an end-of-word suffix, with `Unknown` at the head of the fallback list. -/
+def unknownAlignment (tk : Tokenizer Float) (ps : List TextPart) (ids : List Id) : Option String :=
+  let charLen (b : Bytes) : Nat := (Utf8.decodeOne b).2
+  let run (u : Id) (inVocab : Bytes → Bool) (unitLen : Bytes → Nat) : Option String :=
+    if (tk.dec.vocab u).isSome then none
+    else match alignParts tk inVocab unitLen u ps ids with
+      | .ok () => some "HOLDS"
+      | .error e => some s!"FAILS {e}"
+  match tk.encoder with
+  | .unigram c =>
+    (match c.fallback.head?, c.unknown with
+      | some .unknown, some u => run u (fun b => (c.tok b).isSome) charLen
+      | _, _ => none)
+  | .bpe c =>
+    (match c.fallback.head?, c.unknown, c.eow with
+      | some .unknown, some u, none => run u (fun b => (c.tok b).isSome) (if c.chars then charLen else fun _ => 1)
+      | _, _, _ => none)
+  | .wordpiece _ => none
+
 def padIds (tk : Tokenizer Float) : List Id :=
   tk.config.processing.filterMap fun | .pad id _ _ _ => some id | _ => none
 
@@ -483,7 +561,8 @@ def encVerdict (which : String) (tk : Tokenizer Float) (ext : Ext) (t : Bytes) (
         let fbHead := (encoderFallback tk).head?
         let unk := encoderUnknown tk
         if !tk.config.processing.isEmpty then "HOLDS-NA"
-        else if (match unk with | some u => ids.contains u | none => false) then "HOLDS-NA"
+        else if (match unk with | some u => ids.contains u | none => false) then
+          (unknownAlignment tk ps ids).getD "HOLDS-NA"
         else if fbHead == some .skip || fbHead == some .bytes then
           -- still judged when nothing was skipped / byte-encoded: spelling equality is sufficient evidence
           (match spelledBy tk ids with
